@@ -753,6 +753,9 @@ func (bs *blockState) applySpec(c *Contract, display string, args []Val, rts []t
 		post.Vars[w.Name] = ex.fresh("w_"+w.Name, w.Sort)
 	}
 	for _, e := range c.Ensures {
+		if e.CheckOnly {
+			continue
+		}
 		t, err := post.tr(e.E)
 		if err != nil || t.Sort != "Bool" {
 			ex.unsup(pos, "postcondition %s of %s: %v", e.Label, display, err)
